@@ -143,12 +143,12 @@ def make_occupied(tname, kind):
 def make_selection():
     def h(sel: int, lazy: bool) -> str:
         body = {"__annotations__": {"x": int, "nums": List[int], "y": str}, "x": 0, "nums": [], "y": "a", "z": 5}
-        kind = pick(["default", "attrs", "attrs_typed", "attrs_skip", "attrs+skip"], sel)
-        kw = {"default": {}, "attrs": {"attrs": ["z"]}, "attrs_typed": {"attrs_typed": {"z": List[str]}}, "attrs_skip": {"attrs_skip": ["x"]}, "attrs+skip": {"attrs": ["z"], "attrs_skip": ["y"]}}[kind]
-        managed = {"default": ["x", "nums", "y"], "attrs": ["z"], "attrs_typed": ["z"], "attrs_skip": ["nums", "y"], "attrs+skip": ["x", "nums", "z"]}[kind]
+        kind = pick(["default", "attrs", "attrs_typed", "attrs_skip", "attrs+skip", "attrs+emptyskip", "typed+emptyskip"], sel)
+        kw = {"default": {}, "attrs": {"attrs": ["z"]}, "attrs_typed": {"attrs_typed": {"z": List[str]}}, "attrs_skip": {"attrs_skip": ["x"]}, "attrs+skip": {"attrs": ["z"], "attrs_skip": ["y"]}, "attrs+emptyskip": {"attrs": ["z"], "attrs_skip": []}, "typed+emptyskip": {"attrs_typed": {"z": List[str]}, "attrs_skip": []}}[kind]
+        managed = {"default": ["x", "nums", "y"], "attrs": ["z"], "attrs_typed": ["z"], "attrs_skip": ["nums", "y"], "attrs+skip": ["x", "nums", "z"], "attrs+emptyskip": ["x", "nums", "y", "z"], "typed+emptyskip": ["x", "nums", "y", "z"]}[kind]
         colls = {"nums": "num"} if "nums" in managed else {}
-        if kind == "attrs_typed":
-            colls = {"z": "z_item"}
+        if kind in ("attrs_typed", "typed+emptyskip"):
+            colls = dict(colls, z="z_item")
         original = {**body}
         cls = spec_class(bootstrap=not lazy, **kw)(new_class(body))
         if lazy:
@@ -261,7 +261,7 @@ def obligations(tier):
                 continue
             warm = [(i, sw, lz) for i in range(0, n, 4) for sw in (0, 4) for lz in (False, True)]
             obs.append(Ob(f"C16.occupied.{tname}.{kind or 'none'}", make_occupied(tname, kind), warm, f"template {tname}: the class body defines {'one of the ' + str(n) + ' generated names itself as a ' + kind if kind else 'no generated name'}; which name, the init/repr/eq switch combination (5) and lazy/eager are symbolic selectors; identities checked after decoration and after first use of every helper. Selector-only: finite space exhausted through the solver, no numeric quantity.", expect={"ok"}, timeout=T))
-    obs.append(Ob("C16.selection", make_selection(), [(s, lz) for s in range(5) for lz in (False, True)], "attrs / attrs_typed / attrs_skip selections x lazy/eager (selector-only)", expect={"ok"}, timeout=T))
+    obs.append(Ob("C16.selection", make_selection(), [(s, lz) for s in range(7) for lz in (False, True)], "attrs / attrs_typed / attrs_skip selections (incl. the documented empty attrs_skip idiom) x lazy/eager (selector-only)", expect={"ok"}, timeout=T))
     obs.append(Ob("C16.super", make_super(), [(s_, lz, sp) for s_ in range(9) for lz in (False, True) for sp in (False, True)], "plain or spec subclass defining a method named like one of 9 generated helpers of its spec parent and delegating to super(); called twice; lazy/eager (selector-only)", expect={"ok"}, timeout=T))
     obs.append(Ob("C16.collision", make_collision(), [(s, lz) for s in range(5) for lz in (False, True)], "attribute-name pairs whose singular/plural forms collide (same class, or scalar inherited from a spec parent), fallback free or taken, x lazy/eager (selector-only)", expect={"ok", "RuntimeError"}, timeout=T))
     return obs
